@@ -234,8 +234,8 @@ def judge(sc, c, n_before):
     got = {L: {} for L in rx}
     for L, r in rx.items():
         for f in r["frames"]:
-            if f.send_time == int(f.send_time) and int(f.send_time) in sc.pubs:
-                got[L].setdefault(int(f.send_time), []).append(f)
+            if f.pid in sc.pubs:
+                got[L].setdefault(f.pid, []).append(f)
     for pid, p in sc.pubs.items():
         if p["must"] is None:
             if p["by"] == "P":
